@@ -268,6 +268,10 @@ class Walker:
                 if e.attr == 'pi':
                     return scalar(sp.pi)
                 return ('name', base[1] + '.' + e.attr)
+            if e.attr == 'size' and isinstance(base, tuple) and base[0] == 'mask':
+                return scalar(base[1].setdefault('count', fresh('L')))
+            if e.attr == 'size' and isinstance(base, D) and base.length is not None:
+                return scalar(base.length)
             raise AnalysisError('window analysis: attribute %s' % normalise(e))
         if isinstance(e, ast.UnaryOp):
             v = self.ev(e.operand, env)
@@ -439,6 +443,16 @@ class Walker:
 
     def call(self, e, env):
         name, fn = self.fname(e.func, env)
+        if fn is None and isinstance(e.func, ast.Attribute) and name in ('take', 'copy', 'astype'):
+            try:
+                recv = self.ev(e.func.value, env)
+            except AnalysisError:
+                recv = None
+            if isinstance(recv, D):
+                if name == 'take' and len(e.args) == 1 and not e.keywords:
+                    return self.select(recv, self.ev(e.args[0], env), e)
+                if name in ('copy', 'astype'):
+                    return recv
         args = [self.ev(a, env) for a in e.args]
         kw = {k.arg: self.ev(k.value, env) for k in e.keywords if k.arg}
         if fn is not None:
@@ -496,6 +510,9 @@ class Walker:
             return D(SYM, sp.Integer(1), ln)
         if name in ('array', 'asarray', 'float', 'real'):
             v = args[0]
+            if isinstance(v, tuple) and v[0] == 'range' and len(v[1]) == 1 and isinstance(v[1][0], D) and v[1][0].scalar \
+                    and v[1][0].centre is not None and iszero(v[1][0].centre - N):
+                return D(REFL, (N - 1) / 2, N, c=N - 1)          # array(range(N)) is the index grid arange(N)
             if isinstance(v, tuple) and v[0] == 'tuple':
                 if all(isinstance(x, D) and x.scalar for x in v[1]):
                     if len(v[1]) == 1:
@@ -571,8 +588,41 @@ class Walker:
             if isinstance(x, D) and x.length is not None:
                 return scalar(x.length)
             raise AnalysisError('window analysis: len of unknown length')
+        if name == 'outer' and len(args) == 2 and all(isinstance(a_, D) for a_ in args):
+            # outer(a, b)[i, j] = a[i] * b[j]: with one factor independent of the window index this is a product along another axis
+            if args[0].scalar or args[1].scalar:
+                return self.binop(ast.Mult(), args[0], args[1], e)
+            return D(TOP, None, None)
+        if name == 'einsum' and len(args) == 3 and isinstance(args[0], tuple) and args[0][0] == 'const' and isinstance(args[0][1], str):
+            spec = args[0][1].replace(' ', '')
+            a_, b_ = args[1], args[2]
+            if isinstance(a_, D) and isinstance(b_, D) and spec in ('ij,j->i', 'j,ij->i', 'ij,j', 'i,i->', 'i,i'):
+                # contraction of a product over an axis that is not the window index (one operand is independent of it)
+                if a_.scalar or b_.scalar:
+                    prod_ = self.binop(ast.Mult(), a_, b_, e)
+                    if prod_.scalar:
+                        return scalar(_SUM(prod_.centre) if prod_.centre is not None else None)
+                    if prod_.kind == SYM:
+                        r = D(SYM, _SUM(prod_.centre) if prod_.centre is not None else None, prod_.length)
+                        r.hazard = list(prod_.hazard)
+                        return r
+                return D(TOP, None, None)
+        if name == 'where' and len(args) == 3:
+            m_, a_, b_ = args
+            if isinstance(m_, tuple) and m_[0] == 'mask' and isinstance(a_, D) and isinstance(b_, D):
+                if m_[1].get('side') == 'mid' and a_.kind == SYM and b_.kind == SYM:
+                    # |grid| <= bound is a reflection-symmetric selection and contains the centre sample (bound >= 0)
+                    r = D(SYM, a_.centre, a_.length if a_.length is not None else b_.length)
+                    r.hazard = a_.hazard + b_.hazard
+                    return r
+                return D(TOP, None, a_.length if a_.length is not None else b_.length)
+            raise AnalysisError('window analysis: where(mask, a, b) arguments')
         if name == 'where':
             return ('where', args[0])
+        if name == 'flatnonzero' and len(args) == 1 and isinstance(args[0], tuple) and args[0][0] == 'mask':
+            return args[0]           # the positions a mask selects: used as an index like the mask itself
+        if name == 'take' and len(args) == 2 and isinstance(args[0], D):
+            return self.select(args[0], args[1], e)
         if name in ('flipud', 'flip'):
             x = args[0]
             if isinstance(x, D) and x.kind == SUB:
@@ -656,13 +706,35 @@ class Walker:
 
     def subscript(self, e, env):
         base = self.ev(e.value, env)
+        sl = e.slice
+        if isinstance(base, D) and isinstance(sl, ast.Tuple) and len(sl.elts) == 2:
+            # x[:, newaxis] / x[newaxis, :] / x[:, None]: the same values with one more axis
+            def full(x_):
+                return isinstance(x_, ast.Slice) and x_.lower is None and x_.upper is None and x_.step is None
+            def newax(x_):
+                return (isinstance(x_, ast.Constant) and x_.value is None) or \
+                    (isinstance(x_, ast.Attribute) and x_.attr == 'newaxis') or (isinstance(x_, ast.Name) and x_.id == 'newaxis')
+            if (full(sl.elts[0]) and newax(sl.elts[1])) or (newax(sl.elts[0]) and full(sl.elts[1])):
+                return base
+        if isinstance(base, D) and isinstance(sl, ast.Slice) and sl.lower is None and sl.upper is None:
+            st_ = sl.step
+            if st_ is None:
+                return base
+            if isinstance(st_, ast.UnaryOp) and isinstance(st_.op, ast.USub) and isinstance(st_.operand, ast.Constant) and st_.operand.value == 1:
+                return self.call(ast.copy_location(ast.Call(func=ast.Name(id='flipud', ctx=ast.Load()), args=[e.value], keywords=[]), e), env)
         idx = self.ev(e.slice, env) if not isinstance(e.slice, ast.Slice) else None
         if isinstance(base, tuple) and base[0] == 'where':
             return base[1]          # where(mask)[0] -> the mask
+        if isinstance(base, D) and not base.scalar and base.length is not None and iszero(base.length - 1) and isinstance(idx, D) \
+                and idx.scalar and idx.centre is not None and iszero(idx.centre):
+            return scalar(base.centre)         # the only element of a one-element array
+        return self.select(base, idx, e)
+
+    def select(self, base, idx, e):
         if isinstance(base, D) and isinstance(idx, tuple) and idx[0] == 'mask':
             info = idx[1]
             if info['side'] in ('pos', 'neg'):
-                r = D(HALF, None, fresh('L'))
+                r = D(HALF, None, info.setdefault('count', fresh('L')))
                 r.extra = {'side': info['side'], 'bound': info['bound'], 'strict': info['strict'], 'raw': True, 'f': None}
                 return r
             if info['side'] == 'mid':
@@ -670,7 +742,7 @@ class Walker:
                 self.midmasks.append((info['bound'], info['strict']))
                 return r
             _UNK[0] += 1
-            r = D(SUB, None, fresh('L'))
+            r = D(SUB, None, info.setdefault('count', fresh('L')))
             r.extra = {'id': _UNK[0], 'flipped': False}
             return r
         if isinstance(base, D) and base.kind == SUB:
